@@ -229,67 +229,54 @@ theorem drawSample_goals (sp : Space σ δ) (s : St σ α δ) : (drawSample sp s
 /-! ### what `grow` does to the old motions -/
 
 theorem grow_facts {o : Obj σ α} (L : Laws2 o) (sp : Space σ δ) (s : St σ α δ) (nmotion : Nat) (nm : Motion σ α) (dstate : σ)
-    (hT : StInv o s) (hnm : s.motions[nmotion]? = some nm) :
+    (hT : StInv o s) (hnm : s.motions[nmotion]? = some nm)
+    (hcl : sp.delayCC = false → (growInsert o sp s nmotion nm dstate).st.staleInc = false) :
     NotWorse o s.motions (grow o sp s nmotion nm dstate).1.motions ∧
     ((grow o sp s nmotion nm dstate).2.2 = false → EqCost s.motions (grow o sp s nmotion nm dstate).1.motions) ∧
     (grow o sp s nmotion nm dstate).1.motions.size = s.motions.size + 1 ∧
     (grow o sp s nmotion nm dstate).2.1 = s.motions.size ∧
     (grow o sp s nmotion nm dstate).1.goalMotions = s.goalMotions := by
-  obtain ⟨cands, t, hspec⟩ := growInsert_spec o sp s nmotion nm dstate
-  have hcp := chooseParent_motions sp s.motions nmotion dstate cands s []
-  have hcg := chooseParent_goals sp s.motions nmotion dstate cands s []
-  have hlt := nearestK_lt sp s.motions dstate (sp.kNearest s.motions.size)
-  have hce := fun oi => cache_entry (o := o) sp s.motions dstate (sp.kNearest s.motions.size) nmotion nm hnm oi
-  generalize nearestK sp s.motions dstate (sp.kNearest s.motions.size) = nk at hspec hlt hce
-  generalize chooseParent sp s.motions nmotion dstate cands s [] = cp at hspec hcp hcg
-  obtain ⟨pm, hpm, hinc, hcost⟩ := hce cp.1
-  generalize pickVal cp.1 nk.1 nmotion = par at hspec hpm
-  generalize pickVal cp.1 (nbhIncs o s.motions dstate nk.1) (o.motionCost nm.state dstate) = inc at hspec hinc
-  generalize pickVal cp.1 (nbhCosts o s.motions nk.1 (nbhIncs o s.motions dstate nk.1))
-    (o.combine nm.cost (o.motionCost nm.state dstate)) = cost at hspec hcost
-  have hT1 : StInv o cp.2.2 := ⟨by rw [hcp.1]; exact hT.1, by rw [hcp.2]; exact hT.2⟩
-  have hpl : par < cp.2.2.motions.size := by rw [hcp.1]; exact lt_of_get hpm
-  have hins := insertMotion_inv (o := o) cp.2.2 dstate par pm cost inc t hT1 (by rw [hcp.1]; exact hpm) hinc
-    (by rw [hinc]; exact hcost)
+  obtain ⟨⟨s1, par, pm, cost, inc, t, hst, hnew, hm1, hf1, hg1, hpm, hinc, hcost⟩, hlt, hincs0⟩ :=
+    growInsert_ok (o := o) sp s nmotion nm dstate hnm hcl
+  have hT1 : StInv o s1 := ⟨by rw [hm1]; exact hT.1, by rw [hf1]; exact hT.2⟩
+  have hpl : par < s1.motions.size := by rw [hm1]; exact lt_of_get hpm
+  have hins := insertMotion_inv (o := o) s1 dstate par pm cost inc t hT1 (by rw [hm1]; exact hpm) hinc hcost
   -- the old entries of the array right after the insertion
   have hold : ∀ (i : Nat) (m : Motion σ α), s.motions[i]? = some m →
-      ∃ m', (insertMotion cp.2.2 dstate par cost inc t).motions[i]? = some m' ∧ m'.cost = m.cost := by
+      ∃ m', (insertMotion s1 dstate par cost inc t).motions[i]? = some m' ∧ m'.cost = m.cost := by
     intro i m hm
-    have hne : i ≠ cp.2.2.motions.size := by rw [hcp.1]; have := lt_of_get hm; omega
-    refine ⟨if par = i then { m with children := m.children ++ [cp.2.2.motions.size] } else m, ?_, by split <;> rfl⟩
-    show ((cp.2.2.motions.push _).modify par _)[i]? = _
-    rw [insert_get cp.2.2.motions _ par hpl, if_neg hne, hcp.1, hm]
+    have hne : i ≠ s1.motions.size := by rw [hm1]; have := lt_of_get hm; omega
+    refine ⟨if par = i then { m with children := m.children ++ [s1.motions.size] } else m, ?_, by split <;> rfl⟩
+    show ((s1.motions.push _).modify par _)[i]? = _
+    rw [insert_get s1.motions _ par hpl, if_neg hne, hm1, hm]
     rfl
-  have hsz0 : (insertMotion cp.2.2 dstate par cost inc t).motions.size = s.motions.size + 1 := by
-    show ((cp.2.2.motions.push _).modify par _).size = _
-    simp [hcp.1]
-  have hg0 : (insertMotion cp.2.2 dstate par cost inc t).goalMotions = s.goalMotions := hcg
+  have hsz0 : (insertMotion s1 dstate par cost inc t).motions.size = s.motions.size + 1 := by
+    show ((s1.motions.push _).modify par _).size = _
+    simp [hm1]
+  have hg0 : (insertMotion s1 dstate par cost inc t).goalMotions = s.goalMotions := hg1
   unfold grow
   simp only []
-  rw [hspec]
-  simp only []
-  generalize insertMotion cp.2.2 dstate par cost inc t = st0 at hins hold hsz0 hg0 ⊢
+  generalize growInsert o sp s nmotion nm dstate = g at hst hnew hlt hincs0
+  rw [hst, hnew]
+  generalize insertMotion s1 dstate par cost inc t = st0 at hins hold hsz0 hg0 ⊢
   have hJ0 : RewInv o st0.motions st0 := ⟨hins.1.1, SameStates.refl _, hins.1.2⟩
   have hK0 : RewInv2 o st0.motions (st0, false) :=
     ⟨NotWorse.refl L.base.swo _, fun _ i m m' hm hm' => by rw [hm] at hm'; cases hm'; rfl⟩
-  have hincs : ∀ p ∈ (List.range nk.1.length).zip nk.1, ∀ nb0 : Motion σ α, st0.motions[p.2]? = some nb0 →
-      (nbhIncs o s.motions dstate nk.1).getD p.1 o.identity = o.motionCost nb0.state dstate := by
+  have hincs : ∀ p ∈ g.nbhP, ∀ nb0 : Motion σ α, st0.motions[p.2]? = some nb0 →
+      g.incs.getD p.1 o.identity = o.motionCost nb0.state dstate := by
     intro p hp nb0 hnb0
-    have hp2 : p.2 < s.motions.size := hlt p.2 (List.of_mem_zip hp).2
+    have hp2 : p.2 < s.motions.size := hlt p hp
     obtain ⟨m, hm⟩ := get_of_lt hp2
-    obtain ⟨m', hm', hs'⟩ := hins.2.2 p.2 m (by rw [hcp.1]; exact hm)
+    obtain ⟨m', hm', hs'⟩ := hins.2.2 p.2 m (by rw [hm1]; exact hm)
     rw [hnb0] at hm'; cases hm'
-    unfold nbhIncs
-    rw [getD_map_zip_range _ _ _ p hp, hm, hs']
-  have hfold := foldl_rewireOne_inv L.base sp cp.2.2.motions.size cp.2.1 (nbhIncs o s.motions dstate nk.1) st0.motions dstate
-    hins.2.1 ((List.range nk.1.length).zip nk.1) (st0, false) hJ0 hincs
-  have hfold2 := foldl_rewireOne_inv2 L sp cp.2.2.motions.size cp.2.1 (nbhIncs o s.motions dstate nk.1) st0.motions dstate
-    hins.2.1 ((List.range nk.1.length).zip nk.1) (st0, false) hJ0 hK0 hincs
-  have hgl := foldl_rewireOne_goals o sp cp.2.2.motions.size cp.2.1 (nbhIncs o s.motions dstate nk.1)
-    ((List.range nk.1.length).zip nk.1) (st0, false)
-  generalize List.foldl (rewireOne o sp cp.2.2.motions.size cp.2.1 (nbhIncs o s.motions dstate nk.1)) (st0, false)
-    ((List.range nk.1.length).zip nk.1) = r at hfold hfold2 hgl ⊢
-  refine ⟨?_, ?_, by rw [hfold.2.1.1, hsz0], by rw [hcp.1], hgl.trans hg0⟩
+    rw [hincs0 p hp m hm, hs']
+  have hfold := foldl_rewireOne_inv L.base sp s1.motions.size g.valid g.incs st0.motions dstate
+    hins.2.1 g.nbhP (st0, false) hJ0 hincs
+  have hfold2 := foldl_rewireOne_inv2 L sp s1.motions.size g.valid g.incs st0.motions dstate
+    hins.2.1 g.nbhP (st0, false) hJ0 hK0 hincs
+  have hgl := foldl_rewireOne_goals o sp s1.motions.size g.valid g.incs g.nbhP (st0, false)
+  generalize List.foldl (rewireOne o sp s1.motions.size g.valid g.incs) (st0, false) g.nbhP = r at hfold hfold2 hgl ⊢
+  refine ⟨?_, ?_, by rw [hfold.2.1.1, hsz0], by rw [hm1], hgl.trans hg0⟩
   · intro i m m' hm hm'
     obtain ⟨m0, hm0, hc0⟩ := hold i m hm
     have := hfold2.1 i m0 m' hm0 hm'
@@ -537,28 +524,34 @@ theorem finishIter_binv {o : Obj σ α} (L : Laws2 o) (sp : Space σ δ) (s r1 :
         obtain ⟨gm1, hgm1⟩ := get_of_lt hlt
         exact ⟨gm1, hgm1, by rw [G.eq hchk' g gm gm1 hgm hgm1]; exact hc⟩
 
-theorem iterate_binv {o : Obj σ α} (L : Laws2 o) (sp : Space σ δ) (s : St σ α δ) (hT : StInv o s) (h : BInv o s) :
+theorem iterate_binv {o : Obj σ α} (L : Laws2 o) (sp : Space σ δ) (s : St σ α δ) (hT : StInv o s) (h : BInv o s)
+    (hcl : sp.delayCC = false → (iterate o sp s).staleInc = false) :
     BInv o (iterate o sp s) := by
-  unfold iterate
+  unfold iterate at hcl ⊢
   have h0m : ({ s with iterations := s.iterations + 1, queries := [] } : St σ α δ).motions = s.motions := rfl
   have d1 := drawSample_motions sp ({ s with iterations := s.iterations + 1, queries := [] } : St σ α δ)
   have d2 := drawSample_sameBest sp ({ s with iterations := s.iterations + 1, queries := [] } : St σ α δ)
   have d3 := drawSample_goals sp ({ s with iterations := s.iterations + 1, queries := [] } : St σ α δ)
-  simp only []
+  simp only [] at hcl ⊢
   split
   · rename_i s1 hd
     rw [hd] at d1 d2 d3
     exact BInv.of_same d1.1 d2 d3 h
   · rename_i rstate s1 hd
-    rw [hd] at d1 d2 d3
+    rw [hd] at d1 d2 d3 hcl
+    simp only [] at hcl
     have h1 : BInv o s1 := BInv.of_same d1.1 d2 d3 h
     have hT1 : StInv o s1 := ⟨by rw [d1.1]; exact hT.1, by rw [d1.2]; exact hT.2⟩
     split
     · exact h1
     · rename_i nmotion hn
+      rw [hn] at hcl
+      simp only [] at hcl
       split
       · exact h1
       · rename_i nm hnm
+        rw [hnm] at hcl
+        simp only [] at hcl
         have c1 := checkMotion_motions s1 nm.state (steerTo sp nm rstate)
         have c2 := checkMotion_sameBest s1 nm.state (steerTo sp nm rstate)
         have c3 := checkMotion_goals s1 nm.state (steerTo sp nm rstate)
@@ -567,17 +560,20 @@ theorem iterate_binv {o : Obj σ α} (L : Laws2 o) (sp : Space σ δ) (s : St σ
           rw [hc] at c1 c2 c3
           exact BInv.of_same c1.1 c2 c3 h1
         · rename_i s2 hc
-          rw [hc] at c1 c2 c3
+          rw [hc] at c1 c2 c3 hcl
+          simp only [] at hcl
           have h2 : BInv o s2 := BInv.of_same c1.1 c2 c3 h1
           have hT2 : StInv o s2 := ⟨by rw [c1.1]; exact hT1.1, by rw [c1.2]; exact hT1.2⟩
           have hf := grow_facts L sp s2 nmotion nm (steerTo sp nm rstate) hT2 (by rw [c1.1]; exact hnm)
+            (fun hd => by rw [← grow_finish_stale]; exact hcl hd)
           exact finishIter_binv L sp s2 _ _ _ _
             ⟨hf.1, hf.2.1, hf.2.2.1, hf.2.2.2.2, grow_sameBest o sp s2 nmotion nm (steerTo sp nm rstate)⟩ h2
 
 theorem init_binv (o : Obj σ α) (sp : Space σ δ) : BInv o (St.init o sp : St σ α δ) :=
   ⟨rfl, fun g h => by simp [St.init] at h⟩
 
-theorem applyOp_binv {o : Obj σ α} (L : Laws2 o) (sp : Space σ δ) (s : St σ α δ) (op : Op σ δ) (hT : StInv o s) (h : BInv o s) :
+theorem applyOp_binv {o : Obj σ α} (L : Laws2 o) (sp : Space σ δ) (s : St σ α δ) (op : Op σ δ) (hT : StInv o s) (h : BInv o s)
+    (hcl : sp.delayCC = false → (applyOp o sp s op).staleInc = false) :
     BInv o (applyOp o sp s op) := by
   cases op with
   | start x =>
@@ -597,12 +593,12 @@ theorem applyOp_binv {o : Obj σ α} (L : Laws2 o) (sp : Space σ δ) (s : St σ
       exact hgm
   | feed us xs as => exact BInv.of_same rfl ⟨rfl, rfl⟩ rfl h
   | beginSolve => exact BInv.of_same rfl ⟨rfl, rfl⟩ rfl h
-  | iter => exact iterate_binv L sp s hT h
+  | iter => exact iterate_binv L sp s hT h hcl
 
-theorem run_binv {o : Obj σ α} (L : Laws2 o) (sp : Space σ δ) (s : St σ α δ) (ops : List (Op σ δ)) (hT : StInv o s) (h : BInv o s) :
-    BInv o (run o sp s ops) := by
+theorem run_binv {o : Obj σ α} (L : Laws2 o) (sp : Space σ δ) (s : St σ α δ) (ops : List (Op σ δ)) (hT : StInv o s) (h : BInv o s)
+    (hc : Clean o sp s ops) : BInv o (run o sp s ops) := by
   induction ops generalizing s with
   | nil => exact h
-  | cons op rest ih => exact ih _ (applyOp_inv L.base sp s op hT) (applyOp_binv L sp s op hT h)
+  | cons op rest ih => exact ih _ (applyOp_inv L.base sp s op hT hc.head) (applyOp_binv L sp s op hT h hc.head) hc.tail
 
 end OmplModel.RRTstar
